@@ -5,7 +5,11 @@ import VelaVerif.Lemmas.TfliteReader
 
 `normalise d` is the graph description the reader builds from the file the writer produces for `d`, defined from `d` alone
 (through the writer's `__init__` view of the operators, `prepSub`): the tensors of every written subgraph in the writer's order,
-each in the reader's normal form; tensor references renumbered; the operators as the reader lists them.
+each in the reader's normal form; tensor references renumbered; the renumbered operators put through the reader's graph surgery
+(virtual outputs, reshaped clones) and listed as the reader lists them. The reader's own checks (data size, inputs without
+producer, clonable weights) are part of it, so that `read_writeWith : Reader.read d.version (write d) = normalise d` holds for
+every description; `roundtripDomain` / `noSurgery` are the conditions under which it succeeds, and without surgery the subgraph
+part has the closed form `normSub_simple`.
 -/
 set_option linter.unusedSimpArgs false
 namespace VelaVerif.Tflite.Roundtrip
@@ -701,6 +705,28 @@ theorem positionsOf_ok (l : List Nat) : ∃ r, Reader.positionsOf (Reader.dedupN
   have : t ∈ Reader.dedupNat l := by unfold Reader.dedupNat; rw [mem_dedup]; exact ht
   obtain ⟨i, hi, _⟩ := indexIn_of_mem _ t this
   exact ⟨i, by simp only [hi]; rfl⟩
+
+/-- the closed form of one subgraph of the normal form without surgery: its own tensors behind the earlier ones, the renumbered
+operators behind their Placeholder / Const producers, the renumbered interface -/
+theorem normSub_simple (ts : List TensorD) (ci : OpInfo) (prev own : List TensorD) (ps : PSub) (outs2 pos : List Nat)
+    (ho1 : (sgAll ts ps).mapM (normTensorAt ts) = .ok own)
+    (ho : outputList ps.sg.originalOutputPositions (sgOuts ps) = .ok outs2)
+    (hpos : Reader.positionsOf (Reader.dedupNat (renList (sgAll ts ps) prev.length outs2)) (renList (sgAll ts ps) prev.length outs2) = .ok pos)
+    (hinp : inputsNotProduced ps = true)
+    (hs : ∀ p ∈ writtenOps ps, OpSimple ci (sgAll ts ps) prev.length (prev ++ own) p) :
+    normSub ts ci prev ps = .ok (
+      SubgraphD.mk ps.sg.name true
+        (Reader.startupOps (prev ++ own) prev.length (sgAll ts ps).length ((writtenOps ps).map (normROp ci (sgAll ts ps) prev.length))
+            (Reader.dedupNat (renList (sgAll ts ps) prev.length ps.sg.originalInputs)) ++
+          Reader.realOps ((writtenOps ps).map (normROp ci (sgAll ts ps) prev.length)) [])
+        (renList (sgAll ts ps) prev.length ps.sg.originalInputs) []
+        (Reader.dedupNat (renList (sgAll ts ps) prev.length outs2)) (some pos) [], prev ++ own) := by
+  have hno := normOps_simple ci (sgAll ts ps) prev.length (prev ++ own) (writtenOps ps) 0 hs
+  have hchk : Writer.check (!(Reader.dedupNat (renList (sgAll ts ps) prev.length ps.sg.originalInputs)).any
+      (Reader.produced ((writtenOps ps).map (normROp ci (sgAll ts ps) prev.length)))) "vela-error" = .ok () := by
+    rw [inputs_check _ _ _ _ _ (normOps_fileOutputs ci _ _ _ _ _ _ hno) hinp]; rfl
+  unfold normSub
+  simp only [ho1, hno, ho, hchk, hpos, bind, Except.bind, pure, Except.pure, List.append_nil, List.map_nil]
 
 theorem normSubs_ok (ts : List TensorD) (ci : OpInfo) (rcodes : List Reader.RCode) (codes : List Code)
     (bufs : List (Option Data)) (subs : List PSub) (sgs : List SubGraphT)
